@@ -185,6 +185,19 @@ fn span_shape(process: bool, full: bool) {
     witness!(c3 == 0 && c2 == 1, "untracked call (free) inside the inner span");
 }
 
+fn process_span_one() {
+    reset();
+    let a = Allocator::new(Rec);
+    let (op, m) = new_operation();
+    let it = nd::u64();
+    nd::assume(it <= (1 << 20));
+    let span = op.measure_process().iterations(it);
+    let (b, c) = one_call(&a, 1 << 30);
+    drop(span);
+    let mm = m.lock().unwrap();
+    assert!(mm.total_bytes_allocated() == b && mm.total_allocations_count() == c && mm.total_iterations() == it, "process span: exactly the call inside it");
+}
+
 /// Two consecutive spans on one operation + merge of two operations: totals are sums.
 fn span_sum_and_merge() {
     reset();
@@ -221,7 +234,7 @@ harnesses! {
     #[cfg_attr(kani, kani::stub(catch_unwind, cu_stub))]
     fn c18_thread_span_nested [unwind 4] { span_shape(false, false) }
 
-    // @verif id=C18 tier=quick timeout=900 mem=16 expect=pass covers=2
+    // @verif id=C18 tier=thorough timeout=3600 mem=30 expect=pass covers=2
     // @bounds ProcessSpan: same shape, process-wide totals (one thread registered)
     #[cfg_attr(kani, kani::stub(catch_unwind, cu_stub))]
     fn c18_process_span_nested [unwind 4] { span_shape(true, false) }
@@ -230,6 +243,11 @@ harnesses! {
     // @bounds ThreadSpan: call; [outer: call; [inner: call]; call]; call - five solver-chosen calls
     #[cfg_attr(kani, kani::stub(catch_unwind, cu_stub))]
     fn c18_thread_span_nested_5calls [unwind 4] { span_shape(false, true) }
+
+    // @verif id=C18 tier=quick timeout=900 mem=12 expect=pass
+    // @bounds ProcessSpan around one solver-chosen call: process totals delta = that call
+    #[cfg_attr(kani, kani::stub(catch_unwind, cu_stub))]
+    fn c18_process_span_one_call [unwind 4] { process_span_one() }
 
     // @verif id=C18 tier=quick timeout=900 mem=12 expect=pass
     // @bounds two consecutive spans on one operation with an uncounted call between them; OperationMetrics::merge with arbitrary other totals
